@@ -9,7 +9,8 @@ from .txgen import hex_case
 
 STRUCT_NAMES = ["Mail", "Person", "Asset", "a", "A", "B", "b", "Zed", "_x", "Foo2", "Foo10", "Foo", "Foobar", "bytes0", "uint9", "int264",
                 "bytes33", "uint320", "Z", "z", "aa", "Aa", "aA", "M", "m", "Node", "Tree", "Order", "Permit", "EIP712Domainx", "Bool",
-                "Address", "String", "Bytes", "uint256x", "int7", "bytes64", "T1", "T2", "T10", "C", "c", "_", "$t", "Ab", "AB"]
+                "Address", "String", "Bytes", "uint256x", "int7", "bytes64", "T1", "T2", "T10", "C", "c", "_", "$t", "Ab", "AB",
+                "Foo$", "Foo$Bar", "Mail$", "Mail$Box", "a$", "A$b", "Token", "Token$Meta", "T1$", "$", "$$"]
 MEMBER_NAMES = ["a", "b", "c", "from", "to", "value", "data", "nonce", "deadline", "owner", "spender", "x", "y", "kids", "next", "items", "name",
                 "wallet", "contents", "amount", "token", "flag", "id", "salt", "chainId", "version", "m1", "m2", "m3", "_p", "Q"]
 UINT_W = list(range(8, 257, 8))
@@ -52,6 +53,11 @@ def rand_graph(rng, nstructs=None, shape=None):
     only if j > i; through dynamic arrays or [0] it may reference any struct, itself included (recursion)."""
     n = nstructs or rng.choice([1, 2, 2, 3, 3, 4, 5, 6, 8])
     names = rng.sample(STRUCT_NAMES, n)
+    if n >= 3 and rng.random() < 0.25:
+        a, b = rng.choice([("Foo", "Foo$Bar"), ("Mail", "Mail$Box"), ("Token", "Token$Meta"), ("T1", "T1$"), ("$", "$$"), ("Foo$", "Foo$Bar")])
+        names = [x for x in names if x not in (a, b)][:n - 2]
+        i = rng.randrange(len(names) + 1)
+        names[i:i] = [a, b] if rng.random() < 0.5 else [b, a]
     types = {}
     for i, name in enumerate(names):
         k = rng.choice([0, 1, 2, 3, 3, 4, 5, 6])
@@ -271,6 +277,41 @@ def _rand_document(rng, shape, domain_fields, depth):
     dv = rand_value_tree(rng, types, "EIP712Domain", 2, Budget(20))
     return assemble(rng, types, primary, render_tree(rng, dv), render_tree(rng, msg)), {"types": types, "primary": primary,
                                                                                         "domain": dv, "message": msg}
+
+
+def sibling_document(rng, info, depth=3):
+    """A second document that shares every struct *signature* with `info` except for ONE referenced (non-primary) struct whose
+    members differ. Anything cached per struct name or per struct signature from the first document is stale for the second."""
+    types = {k: list(v) for k, v in info["types"].items()}
+    primary = info["primary"]
+    deps = sorted(eip712.dependencies(types, primary))
+    if not deps:
+        return None
+    victim = rng.choice(deps)
+    ms = list(types[victim])
+    k = rng.randrange(4)
+    if k == 0 or not ms:
+        ms.append(("zextra", rand_atom(rng)))
+    elif k == 1:
+        i = rng.randrange(len(ms))
+        ms[i] = (ms[i][0] + "_", ms[i][1])
+    elif k == 2:
+        i = rng.randrange(len(ms))
+        if eip712.struct_ref(ms[i][1]) is None:
+            ms[i] = (ms[i][0], rand_atom(rng))
+        else:
+            ms.append(("zextra", "uint8"))
+    else:
+        ms = ms[1:] if len(ms) > 1 else ms + [("zextra", "bool")]
+    types[victim] = ms
+    for _ in range(20):
+        try:
+            msg = rand_value_tree(rng, types, primary, depth, Budget(120))
+            dv = rand_value_tree(rng, types, "EIP712Domain", 2, Budget(20))
+            return assemble(rng, types, primary, render_tree(rng, dv), render_tree(rng, msg)), {"types": types, "primary": primary}
+        except TooBig:
+            continue
+    return None
 
 
 def assemble(rng, types, primary, domain_tok, message_tok, types_tok=None):
